@@ -1,12 +1,16 @@
+mod codec;
+mod ffi;
 mod fw;
 mod fwgen;
+mod sim;
+mod val;
 mod genm;
 mod util;
 mod vtime;
 
 use std::io::Write;
 
-fn arg_val(args: &[String], name: &str) -> Option<String> {
+pub fn arg_val(args: &[String], name: &str) -> Option<String> {
     args.iter().position(|a| a == name).and_then(|i| args.get(i + 1).cloned())
 }
 
@@ -46,9 +50,15 @@ fn main() {
                 emit_fw(&mut w, &c, &mut p);
             }
         }
-        _ => {
-            eprintln!("usage: mbharness fw-gen --seed N --cases N");
-            std::process::exit(2);
+        other => {
+            let handled = sim::cmd(other, &args, &mut w)
+                || codec::cmd(other, &args, &mut w)
+                || val::cmd(other, &args, &mut w)
+                || ffi::cmd(other, &args, &mut w);
+            if !handled {
+                eprintln!("usage: mbharness <fw-gen|fw-replay|sim-*|codec-*|val-*|ffi-*> --seed N --cases N");
+                std::process::exit(2);
+            }
         }
     }
 }
